@@ -611,6 +611,18 @@ Definition mint_tokens (mem_ks : list ksrow) (active : Z) (id : Z) (outs : list 
 (* ------------------------------------------------------------------ melt *)
 
 (* invoice handle req: amount in msat (0: no amount), payment hash; decodes: false = not a bolt11 invoice *)
+(* "a mint quote exists with the same invoice": the quote found by payment hash must carry the very request string of the melt
+   quote.  Handles: the request handle of one of the mint's own invoices IS its payment-hash handle (an own invoice and its
+   hash determine each other); any other invoice - one that merely carries that hash included - has a request handle of its own. *)
+Definition same_invoice (mq : res (option mquote)) (req : Z) : option mquote :=
+  match mq with
+  | ROk (Some m) => if mq_hash m =? req then Some m else None
+  | _ => None
+  end.
+
+Definition internal_mq (q : lquote) (d : db) : option mquote :=
+  same_invoice (ROk (find (fun m => mq_hash m =? lq_hash q) (d_mq d))) (lq_req q).
+
 Definition request_melt_quote (cfg : config) (unit_ok decodes : bool) (req h msat : Z) (mpp : option Z) (newid : Z)
   : prog (result lquote) :=
   if negb unit_ok then fail EUnit else
@@ -618,7 +630,7 @@ Definition request_melt_quote (cfg : config) (unit_ok decodes : bool) (req h msa
   if msat =? 0 then fail EInvoice else
   let invoice_sat := (msat + 999) / 1000 in
   call mq <- GetMintQuoteByHash h ;;
-  let internal := match mq with ROk (Some _) => true | _ => false end in
+  let internal := match same_invoice mq req with Some _ => true | None => false end in
   let plan : result (bool * Z * Z) :=
     match mpp with
     | None => Ok (false, 0, invoice_sat)
@@ -759,8 +771,8 @@ Definition melt_tokens (cfg : config) (mem_ks : list ksrow) (id : Z) (ins : list
         | RErr => fail EDb
         | ROk _ =>
           call mq <- GetMintQuoteByHash (lq_hash q) ;;
-          match mq with
-          | ROk (Some m) =>
+          match same_invoice mq (lq_req q) with
+          | Some m =>
               (* settleQuotesInternally *)
               call st <- LnInvoiceStatus (mq_hash m) ;;
               match st with
@@ -787,7 +799,7 @@ Definition melt_tokens (cfg : config) (mem_ks : list ksrow) (id : Z) (ins : list
                   end
                 end
               end
-          | _ =>
+          | None =>
               call ans <- LnPay (lq_req q) (lq_hash q)
                                 (if lq_mpp q then fee_reserve cfg (lq_msat q / 1000) else lq_fee q)
                                 (if lq_mpp q then lq_msat q else 0) (lq_mpp q) ;;
